@@ -19,7 +19,7 @@ from ..core.outcome import Violation
 
 NAME = "patchsim"
 SIM_UNIT = "line events executed inside wrapped regions"
-BUDGET = {"quick": {"runs": 2500, "wall": 85}, "thorough": {"runs": 6000, "wall": 2400}}
+BUDGET = {"quick": {"runs": 2200, "wall": 75}, "thorough": {"runs": 6000, "wall": 2400}}
 SHRINK_LISTS = ("ops",)
 ISOLATE = True          # every run in a forked child: the subject is process-global state
 PROBES = {"C06": ["inject:pypose-frame", "inject:user-frame", "inject:torch-frame", "inject:other-frame", "user-raise",
